@@ -92,7 +92,7 @@ def run(pid, tier, seed):
     rep.cov["evaluations"] = len(traces)
     rep.cov["distinct_nontrivial"] = len(seen)
     rep.cov["rule"] = ("orderings of stdout chunks (with / without the control-listener line), connection outcome (ok / auth failure / "
-                       "refused), ownership replies (acknowledged / rejected), progress 10/50/100, timeout, process exit (code or signal), "
+                       "refused), ownership replies (acknowledged / rejected), progress 10/50/100, timeout, process exit (error code, signal or clean status 0), "
                        "with a temporary data directory, a caller-supplied one (keyword) or one named by the configuration object handed in: TLC -simulate behaviours of Launch_Gen plus seeded random "
                        "orderings biased to reach the ownership dialogue; distinct by hash; non-trivial = a connection attempt plus a "
                        "timeout, an exit or a 100% report")
